@@ -407,14 +407,27 @@ def c15(tier):
         verdict.violation('alias:' + bad[0]['problems'][0].split(':')[0][:30], rp,
                           '%d command lines naming one target by two spellings misbehave, e.g. (cwd %s) %s: %s'
                           % (len(bad), bad[0]['cwd'], ' '.join(bad[0]['argv']), '; '.join(bad[0]['problems'])[:400]))
-    cov['traces_validated_against_impl'] = cov['normpath_compared'] + cov['relpath_compared'] + acov['alias_command_lines']
+    # spellings inside RedoSys: histories whose command lines and scripts name files by several spellings (at -j1 and -j2)
+    v2, scov, ste, swall = syscheck.run_family(
+        'C15', tier, fam(['alias']), ['Fresh', 'NoUnderBuild', 'NoDupRun'], ['NoOverBuild'], None,
+        (4, 3), sample_n=None if tier == 'thorough' else 60, jitter=True, repeat=3 if tier == 'thorough' else 1,
+        verdict=verdict, subdir='sys',
+        note='RedoSys with the constant Alias (spelling -> file): one record, one lock, one build per run')
+    tool += ste
+    cov['alias_histories'] = {'states': scov['states'], 'behaviours_replayed': scov['behaviours_replayed'],
+                              'history_inputs_enumerated': scov['history_inputs_enumerated']}
+    cov['states'] = cov.get('states', 0) + scov['states']
+    cov['traces_validated_against_impl'] = cov['normpath_compared'] + cov['relpath_compared'] + acov['alias_command_lines'] \
+        + scov['behaviours_replayed']
     cov['exhaustive'] = True
     cov['note'] = ('TLC: Idempotent, Preserves (meaning on a symlink-free tree), Canonical (one spelling per meaning) for every '
                    'string over {/,.,a,b} up to the bound, RelJoin/RelClean for every pair of absolute strings; the real normpath '
                    'and relpath are called on every enumerated input and must return what the specification computed; random '
                    'longer strings are checked for idempotence and against the canonical form; every pair of spellings of one '
-                   'file (relative, ./, ../, //, absolute, through a symlinked directory) from three working directories is given '
-                   'on one command line to redo, redo -j2 and redo-ifchange: exit 0, one execution, one record')
+                   'file (relative, ./, ../, //, absolute, through a symlinked directory, `..` after a symlinked directory) from three '
+                   'working directories is given on one command line to redo, redo -j2 and redo-ifchange: exit 0, one execution, '
+                   'one record; RedoSys with spellings (constant Alias) on command lines and in scripts: every history replayed '
+                   'on the real code, rows compared (a second record for a spelling is a difference)')
     return finish('C15', tier, verdict, cov, tool, time.time() - t0, level='model_checking', assumptions=ASSUME_PATHS)
 
 
